@@ -787,10 +787,16 @@ func oracleC15(r *CallRecord) []problem {
 			add("ServeHTTP returns", fmt.Sprintf("delivery %d did not return", i))
 			continue
 		}
-		if s.WriteErrs > 0 {
-			continue // the client went away under the server (F5): nothing beyond "no panic" is demanded
+		// A client that does not read the body of an answer it cannot use (a text/plain 404, say) closes the
+		// connection under the server's last writes. After a rewriting intermediary (mangle, dup-query) that is the only
+		// way a write can fail - the client is alive - so the status and stage rules stay in force and only the
+		// header-count rule is waived; under the other kinds a failed write means the client went away (F5) and
+		// nothing beyond "no panic" is demanded.
+		headRewritten := k == "mangle" || k == "dup-query"
+		if s.WriteErrs > 0 && !headRewritten {
+			continue
 		}
-		if s.Commits != 1 || s.WriteHeaders > 1 || s.WritesAfter > 0 {
+		if s.WriteErrs == 0 && (s.Commits != 1 || s.WriteHeaders > 1 || s.WritesAfter > 0) {
 			add("exactly one response", fmt.Sprintf("delivery %d: %d header commits, %d WriteHeader calls, %d writes after return", i, s.Commits, s.WriteHeaders, s.WritesAfter))
 		}
 		if !s.Explicit {
@@ -1415,6 +1421,11 @@ func (e *Engine) replay(c *core.Ctx, sp spec) (*core.Outcome, error) {
 	}
 	out := &core.Outcome{}
 	fmt.Printf("replay: schedule hash %s\n", res[0].SchedHash)
+	if os.Getenv("VERIF_REPLAY_DUMP") != "" {
+		// development aid: everything that was recorded about the replayed run
+		b, _ := json.MarshalIndent(res[0], "", " ")
+		fmt.Println(string(b))
+	}
 	if tr, ok := c.Replay.Trace.(map[string]any); ok {
 		if want, _ := tr["sched_hash"].(string); want != "" {
 			fmt.Printf("replay: recorded schedule hash %s: realised schedule %s\n", want, map[bool]string{true: "reproduced exactly", false: "DIFFERS (tree changed, or a nondeterminism of the simulator)"}[want == res[0].SchedHash])
